@@ -249,6 +249,9 @@ func TestVerifBounded(t *testing.T) {
 				stamps[hashes[i]] = tm.Format(time.RFC3339)
 			}
 		}
+		// measurements of very different magnitudes (seconds per byte can be 1e-13):
+		// the ratios are the same, whatever the scale
+		scale := []float64{1, 1, 1e-13, 1e-7, 1e9}[rnd(5)]
 		var rows []verifRow
 		nRows := 2 + rnd(14)
 		for i := 0; i < nRows; i++ {
@@ -264,7 +267,7 @@ func TestVerifBounded(t *testing.T) {
 				r.role = "experiment"
 			}
 			for u := 0; u < nUnits; u++ {
-				r.vals = append(r.vals, float64(1+rnd(9))*[]float64{1, 0.5, 1.25, 100}[rnd(4)])
+				r.vals = append(r.vals, float64(1+rnd(9))*[]float64{1, 0.5, 1.25, 100}[rnd(4)]*scale)
 			}
 			rows = append(rows, r)
 		}
@@ -286,7 +289,7 @@ func TestVerifBounded(t *testing.T) {
 					b.role = "baseline"
 					b.vals = append([]float64(nil), r.vals...)
 					for k := range b.vals {
-						b.vals[k] = float64(1 + rnd(9))
+						b.vals[k] = float64(1+rnd(9)) * scale
 					}
 					rows = append(rows, b)
 				}
@@ -575,5 +578,5 @@ func TestVerifBounded(t *testing.T) {
 	if knownUlp {
 		fmt.Printf("KNOWN-CLASS interp-ulp %d %s\n", classFails, classExample)
 	}
-	fmt.Printf("BOUNDED-RESULT {\"cases\": %d, \"failures\": %d, \"bound\": \"%d sorted slices (1-40, a tenth up to 3000 values; p in {0, 1-2^-53, the two tails of five confidence levels, k/2^20}) for percentile and median; %d generated result sets (1-2 units, optional goos table, 2 benchmarks, 1-3 experiments and 1-3 hashes with stamps in either format, roles baseline/experiment/other/unset, both duplicate policies, 2-16 results) each added in 6 orders (the first one twice), bootstrapped with confidence in {0.5..0.99} and 37-250 resamples\", \"exhaustive\": false}\n", n, fails, helperCases, datasets)
+	fmt.Printf("BOUNDED-RESULT {\"cases\": %d, \"failures\": %d, \"bound\": \"%d sorted slices (1-40, a tenth up to 3000 values; p in {0, 1-2^-53, the two tails of five confidence levels, k/2^20}) for percentile and median; %d generated result sets (1-2 units, optional goos table, 2 benchmarks, 1-3 experiments and 1-3 hashes with stamps in either format, roles baseline/experiment/other/unset, both duplicate policies, 2-16 results, magnitudes from 1e-13 to 1e9) each added in 6 orders (the first one twice), bootstrapped with confidence in {0.5..0.99} and 37-250 resamples\", \"exhaustive\": false}\n", n, fails, helperCases, datasets)
 }
